@@ -144,13 +144,13 @@ def gen_script(rnd, o, nm, names, ncomp, handlers, dyn, sops, flags):
             ops.append(rnd.choice([['exit', None], ['exit', 3], ['kbint']]))
             break
         elif op == 'ret':
-            ops.append(['ret', rnd.choice([1, 2, 3, 4, 5, 6, 7, 8, 9, 1000])])     # 1000: the falsy result 0
+            ops.append(['ret', rnd.choice([1, 2, 3, 4, 5, 6, 7, 8, 9, 1000] + o.get('more_values', []))])     # 1000: the falsy result 0
         elif op == 'addh' and dyn:
             ops.append(['addh', rnd.choice(dyn)])
         elif op == 'rmh' and dyn:
             ops.append(['rmh', rnd.choice(dyn)])
         elif op == 'yield':
-            ops.append(['yield', rnd.choice([None, None, rnd.randint(1, 9), 1000])])
+            ops.append(['yield', rnd.choice([None, None, rnd.randint(1, 9), 1000] + o.get('more_values', []))])
             gen = True
         elif op in ('call', 'wait') and after:
             sp = gen_spec(rnd, o, after, ncomp, flags)
